@@ -77,6 +77,11 @@ func C01(tier string) int {
 	}
 	archs = append(archs, c01Arch{8, 2, 2, 2, 0, 2, []string{"add", "i2r", "inc", "j", "jz", "r2o", "rset"}, ""})
 	archs = append(archs, c01Arch{8, 1, 0, 0, 0, 3, []string{"inc", "nop"}, ""})
+	// more outputs than the input selector can count (port tables of different widths), more inputs than outputs
+	archs = append(archs, c01Arch{8, 1, 1, 3, 0, 3, []string{"i2r", "inc", "j", "r2o", "rset"}, ""}, c01Arch{16, 2, 3, 1, 0, 2, []string{"cpy", "i2r", "jz", "r2o"}, ""})
+	// wide registers, without the opcodes whose wide queries are slow (kept for the thorough tier)
+	archs = append(archs, c01Arch{64, 1, 1, 1, 0, 3, []string{"add", "clr", "cpy", "dec", "i2r", "inc", "j", "jz", "nop", "r2o"}, ""},
+		c01Arch{32, 2, 1, 1, 0, 2, []string{"add", "cpy", "dec", "i2r", "inc", "jz", "r2o"}, ""})
 	// hardware optimisation derived from a program: destination registers per opcode
 	hwOps := []string{"add", "cpy", "dec", "i2r", "inc", "j", "jz", "nop", "r2o", "rset"}
 	archs = append(archs, c01Arch{8, 2, 1, 1, 0, 3, hwOps, "dec:r1;inc:r0+r2;jz:r3;rset:r0+r1+r2+r3"},
